@@ -357,8 +357,29 @@ def build_model(cfg, rng):
                        add_base=cfg.get("add_base", "zero_xc"), nkernels=cfg.get("nkernels", 1))
 
 
+def vary_system(mol, kind):
+    """The same molecule as another KIND of input: 'cart' (Cartesian d/f functions), 'fshell' (one extra f primitive on the
+    heaviest atom), 'bohr' (coordinates specified in Bohr), 'gshell' (one extra g primitive)."""
+    from pyscf import gto
+    atoms = [(mol.atom_symbol(i), tuple(mol.atom_coord(i))) for i in range(mol.natm)]
+    basis = mol.basis
+    kw = dict(unit="Bohr", spin=mol.spin, charge=mol.charge, verbose=0)
+    if kind in ("fshell", "gshell"):
+        heavy = int(np.argmax(mol.atom_charges()))
+        sym = mol.atom_symbol(heavy)
+        per = {}
+        for i in range(mol.natm):
+            s_ = mol.atom_symbol(i)
+            per[s_] = gto.basis.load(basis, s_) if isinstance(basis, str) else basis[s_]
+        per[sym] = list(per[sym]) + [[3 if kind == "fshell" else 4, [1.1, 1.0]]]
+        basis = per
+    return gto.M(atom=atoms, basis=basis, cart=(kind == "cart"), **kw)
+
+
 def build_ks(cfg, rng, mol=None, model=None):
     mol = mol or make_mol(cfg["mol"], cfg.get("basis", "6-31g"), rng, jitter=cfg.get("jitter", 0.03))
+    if cfg.get("system"):
+        mol = vary_system(mol, cfg["system"])
     model = model or build_model(cfg, rng)
     nk = {}
     if cfg.get("plan_type"):
